@@ -243,14 +243,13 @@ theorem path_roundtrip (pset : Byte → Bool) (path : Bytes)
     intro e; exact splitOn1_ne_nil 0x2F path (List.map_eq_nil_iff.mp e)
   unfold parsePath
   rw [splitOn1_join _ _ hq hne]
-  have : mapM' (fun s => do let t ← unquoteText s; pure (protectSlash t)) ((splitOn1 0x2F path).map (quote pset))
+  have : mapM' parseSeg ((splitOn1 0x2F path).map (quote pset))
       = .ok (((splitOn1 0x2F path).map (quote pset)).map (fun q => unquote q)) := by
     apply mapM'_ok
     intro q hq2
     obtain ⟨x, hx, rfl⟩ := List.mem_map.mp hq2
     have e1 : unquote (quote pset x) = x := unquote_quote_partial pset x (hesc x hx)
-    simp only [unquoteText, e1, hutf x hx, if_true]
-    show Except.ok (protectSlash x) = Except.ok x
+    simp only [parseSeg, unquoteText, e1, hutf x hx, if_true]
     rw [protectSlash_clean x (hsegs x hx)]
   rw [this]
   simp only [List.map_map]
@@ -259,9 +258,6 @@ theorem path_roundtrip (pset : Byte → Bool) (path : Bytes)
     apply List.map_congr_left
     intro x hx
     simp [Function.comp, unquote_quote_partial pset x (hesc x hx)]
-  show (do let segs ← Except.ok _; pure (joinWith [0x2F] segs)) = _
-  simp only [e2]
-  show Except.ok (joinWith [0x2F] (splitOn1 0x2F path)) = Except.ok path
-  rw [join_split]
+  rw [e2, join_split]
 
 end Httoop.Uri
